@@ -22,7 +22,7 @@ EXPLANATION = (
     "proofs, enumerate / range(len) indices, try/except) or by an allow-table entry carrying the grammar or construction invariant "
     "(re-checked against the grammar model where it is a grammar fact); R10.4 third-party parse entry points are exception boundaries "
     "(known finding: not wrapped); R10.5 the silent-mode branch warns on every path and returns a fresh, effect-free holder; R10.6 model "
-    "objects (no __lt__) are never ordered without a key. Does not decide: exceptions raised inside sqlfluff/sqlparse/networkx for "
+    "objects (no __lt__) are never ordered without a key. R10.7 the evaluated flag is set last and on success only, so an accessor called after a failed one raises the library exception again instead of AttributeError. Does not decide: exceptions raised inside sqlfluff/sqlparse/networkx for "
     "well-formed calls, recursion depth."
 )
 RULE_TEXT = (
@@ -319,3 +319,9 @@ def rules(ctx: Ctx) -> None:
             if isinstance(n, ast.Raise) and any(p and t.startswith("len(") and t.endswith(".write) > 1") for t, p in flow(prog, f).facts_for(n)):
                 guard = True
     ctx.ob("R10.5", "multi-write-guard", guard, base_exc.loc(), "more than one write target raises the library's exception")
+    # ---- R10.7 a failed evaluation is retried, not half-visible -------------------------------------
+    # (after a library exception every later accessor must raise the same library exception again, not AttributeError on a holder
+    # that was never assigned)
+    from . import common as _common
+
+    _common.flag_rule(ctx, _common.runner(prog), "R10.7")
